@@ -9,7 +9,7 @@ namespace ClockBound.Rs.UpdaterProof
 open ClockBound ClockBound.Rs ClockBound.Generated
 
 macro "updater_tie" : tactic => `(tactic| (
-  simp (maxSteps := 400000) [rs_eval, rs_code, trackingValue, updaterValue, ctimespecValue]
+  simp (maxSteps := 400000) [rs_eval, chkInt, rs_code, trackingValue, updaterValue, ctimespecValue]
   generalize hM : Updater.step _ _ = M
   repeat' split
   all_goals (subst hM; simp [Updater.step, extractBound, boundF, classify, leapClass, Updater.record, chk,
@@ -39,6 +39,6 @@ set_option maxRecDepth 8000 in
 theorem tie_new (drift : Nat) (now : Int) :
     run (Code.ctx now) "ShmUpdater::new" .unit [.writer, .int .u32 drift]
     = .ok (updaterValue (Updater.new drift)) .unit [] := by
-  simp [rs_eval, rs_code, updaterValue, ctimespecValue, Updater.new]
+  simp [rs_eval, chkInt, rs_code, updaterValue, ctimespecValue, Updater.new]
 
 end ClockBound.Rs.UpdaterProof
